@@ -52,6 +52,7 @@ def _weaken_list(o: HObj):
 def _weaken_dict(o: HObj):
     if o.exact:
         o.writes = [(C(k), v, o.created_ctx) for k, v in o.kv.items()]
+        o.sure = set(o.kv.keys())
         o.kv = {}
         o.exact = False
 
@@ -83,11 +84,11 @@ def call_model(ex, fn: Term, args: List[Term], kwargs: Dict[str, Term], st: Stat
     if op in ("global", "sym", "param", "sub", "phi", "call", "elem", "loopvar", "loopexit", "unbound", "missing", "entered"):
         evt = fresh_uid()
         res = mk("call", fn, tuple(args), tuple(sorted(kwargs.items())), evt)
-        ex.emit("dyncall", node, st, fn=fn, args=tuple(args), kwargs=dict(kwargs), result=res)
+        ex.emit("dyncall", node, st, fnterm=fn, args=tuple(args), kwargs=dict(kwargs), result=res)
         ex.unresolved_calls.append("%s:%d %s" % (ex.frame.fi.file, getattr(node, "lineno", 0), show(fn, 3)))
         return res
     if op == "const":
-        ex.emit("dyncall", node, st, fn=fn, args=tuple(args), kwargs=dict(kwargs), result=None, not_callable=True)
+        ex.emit("dyncall", node, st, fnterm=fn, args=tuple(args), kwargs=dict(kwargs), result=None, not_callable=True)
         return sym("notcallable")
     raise Unsupported("call of %s at line %d" % (show(fn, 3), getattr(node, "lineno", 0)))
 
@@ -564,6 +565,14 @@ def call_bmeth(ex, recv: Term, name: str, args, kwargs, st: State, node) -> Term
                     pass
             res = mk("call", mk("meth", mk("snap", recv, o.version), "pop"), tuple(A), (), fresh_uid())
             _weaken_dict(o)
+            if o.sure is not None:
+                if is_const(key):
+                    try:
+                        o.sure.discard(cval(key))
+                    except TypeError:
+                        pass
+                else:
+                    o.sure = set()
             o.writes.append((key, mk("deleted"), st.ctx))
             o.version += 1
             return res
